@@ -1099,4 +1099,4 @@ class Prop(Check):
                 "impl": {k: obs.get(k) for k in ("res", "obj", "path", "type")}}
 
     def extra_search(self, rng, tier, broken):
-        return [gen_case(rng.fork("x" + str(k))) for k in range(2000 if tier == "quick" else 20000)]
+        return [gen_case(rng.fork("x" + str(k))) for k in range(800 if tier == "quick" else 20000)]
